@@ -1049,3 +1049,118 @@ def check_C04(tier, replay=None):
 
 
 CHECKS["C04"] = check_C04
+
+
+# ============================================================================================= C11
+def c11_pairs(cases, tier):
+    """sibling behaviours: same inputs and same calls except the LAST one -> pairs (p, q) differing in one step"""
+    groups = collections.defaultdict(list)
+    for c in cases:
+        if not all(h["ok"] for h in c["hist"]):
+            continue
+        key = json.dumps([c["inp"], c["prog"][:-1]], sort_keys=True)
+        groups[key].append(c)
+    rng = random.Random(common.seed())
+    pairs = []
+    for key, g in groups.items():
+        if len(g) < 2:
+            continue
+        g = sorted(g, key=lambda c: json.dumps(c["prog"][-1]))
+        # prefer siblings whose last calls are of the same kind (they differ in one argument)
+        by_kind = collections.defaultdict(list)
+        for c in g:
+            by_kind[c["prog"][-1][0]].append(c)
+        for kind, gg in by_kind.items():
+            for i in range(len(gg) - 1):
+                pairs.append({"p": gg[i], "q": gg[i + 1], "inp": gg[i]["inp"], "prog": gg[i]["prog"], "hist": gg[i]["hist"]})
+        if len(by_kind) >= 2:
+            ks = sorted(by_kind)
+            pairs.append({"p": by_kind[ks[0]][0], "q": by_kind[ks[1]][0], "inp": g[0]["inp"], "prog": g[0]["prog"], "hist": g[0]["hist"]})
+    limit = 4000 if tier == "quick" else 40000
+    if len(pairs) > limit:
+        pairs = rng.sample(pairs, limit)
+    return pairs
+
+
+def _pair_sample(pr):
+    return {"p": rc.short_case(pr["p"]), "q_last_step": pr["q"]["prog"][-1]}
+
+
+@safe
+def w_c11(args):
+    pr, _ = args
+    p_case, q_case = pr["p"], pr["q"]
+    be = relreplay._backends()
+    p = relcase.build(p_case).final
+    p2 = relcase.build(p_case).final
+    q = relcase.build(q_case).final
+    stats = collections.Counter()
+    if not (p == p) or not (p == p2) or (p != p2) or not (q == q):
+        return {"status": "violation", "nontrivial": True, "tag": "reflexive",
+                "detail": {"why": "== is not reflexive (p == p, or two separately built identical pipelines)", "p": str(p)}}
+    e1, e2 = (p == q), (q == p)
+    if e1 != e2:
+        return {"status": "violation", "nontrivial": True, "tag": "symmetric",
+                "detail": {"why": "p == q is %s but q == p is %s" % (e1, e2), "p": str(p), "q": str(q)}}
+    if (p != q) != (not e1):
+        return {"status": "violation", "nontrivial": True, "tag": "ne", "detail": {"why": "!= is not the negation of ==", "p": str(p), "q": str(q)}}
+    stats["equal_pairs" if e1 else "unequal_pairs"] += 1
+    if not e1:
+        return {"status": "ok", "nontrivial": False, "stats": dict(stats)}
+    # the two compare equal: they must be indistinguishable
+    kinds = p_case["kinds"]
+    tp = spec_table(p_case["hist"][-1]["top"], kinds)
+    tq = spec_table(q_case["hist"][-1]["top"], kinds)
+    ok, why = same_table(tp, tq, ordered=p_case["hist"][-1]["ordered"] and q_case["hist"][-1]["ordered"])
+    if not ok:
+        return {"status": "violation", "nontrivial": True, "tag": "equal-but-different-meaning:" + p_case["prog"][-1][0],
+                "detail": {"why": "p == q but the reference results differ on this input: " + why, "p": str(p), "q": str(q),
+                           "p_result": tp, "q_result": tq}}
+    frames = be.frames(p_case)
+    try:
+        rp, rq = abs_table(p.eval(frames)), abs_table(q.eval(frames))
+        ok, why = same_table(rp, rq)
+        if not ok:
+            return {"status": "violation", "nontrivial": True, "tag": "equal-but-different-result",
+                    "detail": {"why": "p == q but Pandas results differ: " + why, "p": str(p), "q": str(q)}}
+    except Exception:  # noqa: BLE001
+        stats["eval_raised"] += 1
+    for (dialect, merges), model in _models().items():
+        if not merges:
+            continue
+        try:
+            sp, sq = model.to_sql(p), model.to_sql(q)
+        except Exception:  # noqa: BLE001
+            stats["to_sql_raised"] += 1
+            continue
+        if sp != sq:
+            return {"status": "violation", "nontrivial": True, "tag": "equal-but-different-sql:" + dialect,
+                    "detail": {"why": "p == q but the %s SQL differs" % dialect, "p": str(p), "q": str(q)}}
+    return {"status": "ok", "nontrivial": True, "stats": dict(stats)}
+
+
+PLAN_C11 = {
+    "mc": [dict(what="laws of the reference, every unary step, one table, <= 1 row", fams=UNARY, rows=1, steps=1, level=1, **T1)],
+    "emit": [
+        dict(what="all 1-call pipelines over all tables of <= 2 rows from a 4-row universe (siblings differ in the call)", fams=UNARY,
+             rows=2, steps=1, level=2, one_in=2, timeout=600, tabcols="MCB_TabCols", colvals="MCD_ColVals"),
+        dict(what="join/concat of two tables (siblings differ in join type / keys / label), <= 1 row", fams=["stack", "binary"], rows=1,
+             steps=2, level=2, one_in=3, **T12),
+    ],
+    "sim": None,
+    "prepare": c11_pairs,
+    "sample": _pair_sample,
+    "rule": "pairs of sibling behaviours of Exec.tla: same inputs, same calls except the last, which differs (another expression, "
+            "constant, aggregate, key list, reversal, limit, join type, label ...); for each pair the real p == q, q == p, p != q and "
+            "p == p are evaluated; if p == q the TLA+ reference results on the shared input, the Pandas results and the SQL text in "
+            "the SQLite and PostgreSQL dialects must coincide; non-trivial = the pair compares equal",
+    "limit": (60000, 400000),
+    "assumptions": ["distinguishability is witnessed on the inputs TLC generated for the pair; record-map arguments are covered by C17"],
+}
+
+
+def check_C11(tier, replay=None):
+    return generic_plan("C11", tier, PLAN_C11, w_c11, replay)
+
+
+CHECKS["C11"] = check_C11
